@@ -17,7 +17,12 @@ import (
 	"verifsim/chain"
 )
 
-const verifDir = "/verif"
+var verifDir = func() string {
+	if v := os.Getenv("VERIF_DIR"); v != "" {
+		return v
+	}
+	return "/verif"
+}()
 
 type knownEntry struct {
 	Property string `json:"property"`
